@@ -189,9 +189,9 @@ func (s *sim) closeReal() error {
 		return nil
 	}
 	err := s.real.Close()
-	if err == nil {
-		s.noteFlush(false)
-	}
+	// a flush that ran to completion inside Close made everything durable,
+	// whatever Close returns afterwards
+	s.noteFlush(false)
 	ffldb.VerifForget(s.real)
 	s.real = nil
 	return err
